@@ -847,6 +847,13 @@ func (e *Engine) execPreparedStmts(ctx context.Context, tx *SQLTx, stmts []SQLSt
 			}
 		}
 
+		if currTx.opts.ReadOnly && !stmt.readOnly() {
+			// reject before the statement touches the catalog (read-only
+			// transactions share the engine's cached catalog)
+			currTx.Cancel()
+			return nil, committedTxs, stmts[execStmts:], store.ErrReadOnlyTx
+		}
+
 		ntx, err := stmt.execAt(ctx, currTx, nparams)
 		if err != nil {
 			currTx.Cancel()
